@@ -26,6 +26,9 @@ package fingerprint
 //@   trusted
 //@   modifies heap, fs_exists, fs_ver
 //@   preserves $RUNDATA
+// ... proved for every implementation (checksum, timestamp, none, and whatever is added later): the frame of each stays
+// inside the frame above, and one without a frame of its own is verified under this one
+//@ impl_methods (StatusCheckable).IsUpToDate (SourcesCheckable).IsUpToDate (SourcesCheckable).OnError             [C04,C12]
 
 // A status command is run as it is written, in the directory of the task, and judged by its exit status ALONE: what
 // it prints goes nowhere (no writer is attached that could fail, fill up or block), and "up to date" is answered only
